@@ -116,10 +116,13 @@ Definition target_metrics (t : target) : nat :=
 
 Definition is_keeper (t : target) : bool := match t with TKeeper _ _ _ _ => true | _ => false end.
 
+(* the value vector of a fitness object as the harness prints it: none for an invalid fitness *)
+Definition rowf (f : fit) : list Q := if valid f then vals f else [].
+
 Definition snapshot (t : target) (raised : bool) (st : keeper) : ostep :=
   {| o_raised := raised;
      o_uids := map uid (items (k_arch st));
-     o_keys := map vals (keys (k_arch st));
+     o_keys := map rowf (keys (k_arch st));
      o_gen := if is_keeper t then k_gen st else 0;
      o_stag := if is_keeper t then k_stag st else 0;
      o_any := is_keeper t && any_improved st;
@@ -162,30 +165,42 @@ Fixpoint distinct_by_uid (seen : list indiv) (acc : list indiv) : list indiv :=
 
 Definition find_uid (seen : list indiv) (u : nat) : option indiv := find (fun x => uid x =? u) seen.
 
-(* insertion sort of value vectors, best (lexicographically smallest) first *)
+(* better-than on value vectors: an invalid fitness (no vector) is never better, every vector is
+   better than none, otherwise lexicographic minimisation *)
+Definition row_better (v w : list Q) : bool :=
+  match v, w with
+  | [], _ => false
+  | _ :: _, [] => true
+  | _ :: _, _ :: _ => lex_lt_b v w
+  end.
+
+(* insertion sort of value vectors, best first (invalid ones last) *)
 Fixpoint lex_insert (v : list Q) (l : list (list Q)) : list (list Q) :=
   match l with
   | [] => [v]
-  | w :: l' => if lex_lt_b v w then v :: l else w :: lex_insert v l'
+  | w :: l' => if row_better v w then v :: l else w :: lex_insert v l'
   end.
 Definition lex_sort (l : list (list Q)) : list (list Q) := fold_right lex_insert [] l.
 
 Fixpoint nodup_nat (l : list nat) : bool :=
   match l with [] => true | x :: r => negb (existsb (Nat.eqb x) r) && nodup_nat r end.
 
-(* the inputs the property speaks about: valid fitness values of one class, pairwise identical
-   or clearly separated, one fitness per uid *)
-Definition scope_b (seen : list indiv) : bool :=
-  forallb (fun x => valid (fitness x) &&
-    forallb (fun y => same_class (fitness x) (fitness y) && sep_b (vals (fitness x)) (vals (fitness y)) &&
-                      implb (uid x =? uid y) (identical (vals (fitness x)) (vals (fitness y)))) seen) seen.
+(* the inputs the property speaks about: fitness values of one class, the valid ones pairwise
+   identical or clearly separated, one fitness per uid; invalid fitness values (failed evaluations)
+   are admitted where `allow_invalid` says so *)
+Definition scope_b (allow_invalid : bool) (seen : list indiv) : bool :=
+  forallb (fun x => (allow_invalid || valid (fitness x)) &&
+    forallb (fun y => same_class (fitness x) (fitness y) &&
+                      implb (valid (fitness x) && valid (fitness y)) (sep_b (vals (fitness x)) (vals (fitness y))) &&
+                      implb (uid x =? uid y) (Bool.eqb (valid (fitness x)) (valid (fitness y)) &&
+                                              identical (rowf (fitness x)) (rowf (fitness y)))) seen) seen.
 
 (* vectors of the archive members, through the uids observed (None: an archived uid was never shown) *)
 Fixpoint member_vals (seen : list indiv) (uids : list nat) : option (list (list Q)) :=
   match uids with
   | [] => Some []
   | u :: r => match find_uid seen u, member_vals seen r with
-              | Some x, Some l => Some (vals (fitness x) :: l)
+              | Some x, Some l => Some (rowf (fitness x) :: l)
               | _, _ => None
               end
   end.
@@ -194,7 +209,7 @@ Definition head_not_worse (prev cur : list (list Q)) : bool :=
   match prev, cur with
   | [], _ => true
   | _ :: _, [] => false
-  | p :: _, c :: _ => negb (lex_lt_b p c)
+  | p :: _, c :: _ => negb (row_better p c)
   end.
 
 (* single-objective archive: exactly the k best distinct individuals seen, best first *)
@@ -204,7 +219,7 @@ Definition hof_clauses (k : nat) (seen : list indiv) (o : ostep) : bool :=
   | Some mv =>
       nodup_nat (o_uids o) && (length (o_uids o) <=? k) &&
       qrows_eqb (o_keys o) (rev mv) &&
-      qrows_eqb mv (firstn k (lex_sort (map (fun x => vals (fitness x)) (distinct_by_uid seen []))))
+      qrows_eqb mv (firstn k (lex_sort (map (fun x => rowf (fitness x)) (distinct_by_uid seen []))))
   end.
 
 Definition subset_rows (a b : list (list Q)) : bool := forallb (fun v => existsb (identical v) b) a.
@@ -279,12 +294,13 @@ Fixpoint clauses_from (which : nat) (t : target) (seen : list indiv) (prev : lis
 
 Definition multi_fit (f : fit) : bool := match f with Multi _ _ => true | Single _ _ => false end.
 
-(* the property is stated for k >= 1, valid separated fitness values; the Pareto archive for
-   multi-objective fitness, as many values as the objective has metrics *)
+(* the property is stated for k >= 1, separated fitness values; the Pareto archive for valid
+   multi-objective fitness, the keeper for valid fitness with as many values as the objective has
+   metrics; a hall of fame driven directly may also be shown individuals with an invalid fitness *)
 Definition in_scope (t : target) (pops : list (list indiv)) : bool :=
   let seen := concat pops in
   (1 <=? match t with THof k => k | TKeeper _ k _ _ => k | TPareto _ _ => 1 end) &&
-  scope_b seen &&
+  scope_b (match t with THof _ => true | _ => false end) seen &&
   (if pareto_kind t then forallb (fun x => multi_fit (fitness x)) seen else true) &&
   (if is_keeper t then forallb (fun x => length (vals (fitness x)) =? target_metrics t) seen else true).
 
